@@ -42,7 +42,7 @@ func (dec *Decoder) ReadBytes() []byte {
 }
 
 func (dec *Decoder) readUint8Slice(et reflect.Type) []byte {
-	count := dec.ReadInt()
+	count := dec.ReadCount()
 	slice := make([]byte, count)
 	dec.AddReference(slice)
 	for i := 0; i < count; i++ {
